@@ -55,6 +55,17 @@ def Env.global (e : Env) (f : String) : Val :=
     | some (_, v) => v
     | none => .int 0
 
+/-- field `f` of the inner transaction the program submitted last (`itxn f`, `gitxn t f`): NOT a member of the group - the
+    environment carries it as the entry at position 16 of `txns`, beyond every group size; absent: the zero value of the type -/
+def Env.inner (e : Env) (f : String) : Val :=
+  let dflt : Val := if addressFields.contains f then .bytes zeroAddress else .int 0
+  match e.txns[16]? with
+  | none => dflt
+  | some t =>
+    match t.fields.find? (·.1 == f) with
+    | some (_, v) => v
+    | none => dflt
+
 structure State where
   pc : Nat := 0
   stack : List Val := []            -- top of stack = END of the list
@@ -102,7 +113,7 @@ def scratchGet (s : State) (k : Nat) : Val :=
 
 /-- stack-shuffling and scratch opcodes of the fragment that tealer parses into dedicated classes but the
     analyses treat generically; recognised by their printed form -/
-def stepOther (s : State) (name : String) : Outcome :=
+def stepOther (e : Env) (s : State) (name : String) : Outcome :=
   let st := s.stack
   let n := st.length
   let adv (st' : List Val) : Outcome := .next { s with pc := s.pc + 1, stack := st' }
@@ -164,6 +175,12 @@ def stepOther (s : State) (name : String) : Outcome :=
       .next { s with pc := s.pc + 1, stack := r, scratch := (k, v) :: s.scratch.filter (·.1 != k) }
     | some _, none => .reject "underflow"
     | none, _ => .unsupported name
+  | ["itxn_begin"] => adv st
+  | ["itxn_next"] => adv st
+  | ["itxn_submit"] => adv st
+  | ["itxn_field", _] => match pop1 st with | some (_, r) => adv r | none => .reject "underflow"
+  | ["itxn", f] => adv (st ++ [e.inner f])
+  | ["gitxn", _, f] => adv (st ++ [e.inner f])
   | "byte" :: rest => adv (st ++ [.bytes (" ".intercalate rest)])
   | "pushbytes" :: rest => adv (st ++ [.bytes (" ".intercalate rest)])
   | _ => .unsupported name
@@ -281,7 +298,7 @@ def step (prog : List Ins) (e : Env) (s : State) : Outcome :=
         | some (x, r) => if y ≤ x then adv (r ++ [.int (x - y)]) else .reject "underflow-sub"
         | none => .reject "sub-arg"
       | none => .reject "sub-arg"
-    | .other name _ _ => stepOther s name
+    | .other name _ _ => stepOther e s name
 
 inductive Result
   | accept (trace : List Nat)
